@@ -244,7 +244,9 @@ func (a *Analysis) ExactlyOnce() []Finding {
 		case memnet.KWrite:
 			k := a.keyOf(e.Pkt)
 			for ck, d := range completed {
-				if d.moved == 0 && e.Conn == d.conn && e.OK && e.Seq > d.seq && k != ck {
+				// ("moved on" = the task goroutine wrote its next REQUEST; acknowledgements the reader goroutine
+				// writes for inbound traffic say nothing about where the publish call is)
+				if d.moved == 0 && e.Conn == d.conn && e.OK && e.Seq > d.seq && k != ck && k != "" {
 					d.moved = e.Seq
 				}
 			}
